@@ -26,7 +26,14 @@ func (s Spec) DeepCopy() Spec {
 func (s Spec) MarshalProto() ([]byte, error) { return json.Marshal(s) }
 
 // UnmarshalProto implements protobuf.ProtoUnmarshaler.
-func (s *Spec) UnmarshalProto(b []byte) error { return json.Unmarshal(b, s) }
+func (s *Spec) UnmarshalProto(b []byte) error {
+	if len(b) == 0 {
+		// an empty proto message is the zero spec (what a tombstone becomes on the wire)
+		*s = Spec{}
+		return nil
+	}
+	return json.Unmarshal(b, s)
+}
 
 // Resource types of the simulated universe.
 const (
@@ -101,7 +108,16 @@ func SpecOf(r resource.Resource) *Spec {
 	case Spec:
 		return &s
 	}
-	// protobuf.Resource (skip-unmarshal) or anything else: try the proto bytes
+	if pr, ok := r.(*protobuf.Resource); ok {
+		// skip-unmarshal wrapper: decode the wire bytes of the spec
+		if m, err := pr.Marshal(); err == nil {
+			var s Spec
+			if b := m.GetSpec().GetProtoSpec(); len(b) == 0 || json.Unmarshal(b, &s) == nil {
+				return &s
+			}
+		}
+	}
+	// anything else: try the proto bytes
 	if pm, ok := r.Spec().(interface{ MarshalProto() ([]byte, error) }); ok {
 		b, err := pm.MarshalProto()
 		if err == nil {
